@@ -241,6 +241,19 @@ func runC17(c *core.Ctx) {
 				c.Violate("Events|order", caseID, fmt.Sprintf("Frequency(%v): Events(%d)=%d < Events(%d)=%d", rt.f, dv, got, prevDur, prevE), d)
 			}
 			prevE, prevDur = got, dv
+			// the duration of the count just returned, asked straight after
+			// (quantising a duration to the event grid): the same oracle
+			// applies whatever was asked before
+			if got >= 0 {
+				c.Eval(1)
+				d2 := f.Duration(got)
+				exact2 := new(big.Rat).Mul(ratNano, new(big.Rat).SetInt64(int64(got)))
+				exact2.Quo(exact2, fr)
+				c.Obs("durations_asked_straight_after_events", 1)
+				if ok2, diff2 := c17Within(int64(d2), exact2); !ok2 {
+					c.Violate("Duration|error-after-Events", caseID, fmt.Sprintf("Frequency(%v): Events(%dns)=%d, then Duration(%d)=%dns, exact %s ns, off by %s", rt.f, dv, got, got, int64(d2), exact2.FloatString(4), diff2.FloatString(4)), d)
+				}
+			}
 		}
 		c.Obs("rates", 1)
 	}
